@@ -4,6 +4,11 @@ import (
 	"fmt"
 	"sort"
 
+	"github.com/lianxiangcloud/linkchain/libs/common"
+	"github.com/lianxiangcloud/linkchain/libs/crypto"
+	dbm "github.com/lianxiangcloud/linkchain/libs/db"
+	"github.com/lianxiangcloud/linkchain/libs/trie"
+
 	"lvharness/hx"
 )
 
@@ -379,8 +384,170 @@ func genRaw(g *hx.Gen) {
 	}
 }
 
+// ---- large commits: the write batch of trie.Database.Commit / Cap flushes every dbm.IdealBatchSize bytes ---------------
+
+// commitBytes measures, on the real trie code but WITHOUT any disk commit, how many node-blob bytes one
+// Database.Commit of this content would put into the write batch (sum of the blobs of all hashed nodes).
+func commitBytes(keys, vals [][]byte, secure bool) int {
+	tdb := trie.NewDatabase(dbm.NewMemDB())
+	t, _ := trie.New(common.EmptyHash, tdb)
+	for i, k := range keys {
+		if secure {
+			k = crypto.Keccak256(k)
+		}
+		t.Update(k, vals[i])
+	}
+	t.Commit(nil)
+	total := 0
+	it := t.NodeIterator(nil)
+	for it.Next(true) {
+		if h := it.Hash(); h != (common.Hash{}) {
+			if blob, err := tdb.Node(h); err == nil {
+				total += len(blob)
+			}
+		}
+	}
+	return total
+}
+
+type largeSpec struct {
+	name   string
+	secure bool
+	target int  // wanted batch bytes of the first commit (0: just use n keys)
+	n      int  // number of keys when target == 0
+	second int  // keys added before a second commit + reopen (0: none)
+	mode   string // "commit-reopen" | "cap" | "gc"
+}
+
+func genLargeCase(g *hx.Gen, sp largeSpec) {
+	kind := "plain"
+	if sp.secure {
+		kind = "secure"
+	}
+	var keys, vals [][]byte
+	add := func() {
+		keys = append(keys, rbytes(g, 32))
+		vals = append(vals, rbytes(g, 64))
+	}
+	if sp.target == 0 {
+		for i := 0; i < sp.n; i++ {
+			add()
+		}
+	} else {
+		// grow in steps to just below the target, then tune ONE value's length so that the batch holds exactly `target` bytes
+		// (a longer leaf value changes only that leaf's blob: its ancestors refer to it by a 32-byte hash)
+		for i := 0; i < 200; i++ {
+			add()
+		}
+		for commitBytes(keys, vals, sp.secure) < sp.target-4000 {
+			for i := 0; i < 25; i++ {
+				add()
+			}
+		}
+		for commitBytes(keys, vals, sp.secure) < sp.target-150 {
+			add()
+		}
+		for d := 0; d < 4 && commitBytes(keys, vals, sp.secure) != sp.target; d++ {
+			diff := sp.target - commitBytes(keys, vals, sp.secure)
+			i := len(vals) - 1
+			if n := len(vals[i]) + diff; n >= 56 && n <= 180 {
+				vals[i] = rbytes(g, n)
+			} else {
+				add()
+			}
+		}
+	}
+	first := commitBytes(keys, vals, sp.secure)
+	g.Count(fmt.Sprintf("large:%s:first-commit-KiB:%d", sp.name, first/1024))
+	ops := []string{"case", "new kind=" + kind}
+	if sp.mode == "cap" {
+		ops[0] = hx.CaseOp("cap")
+	}
+	put := func(i int) { ops = append(ops, fmt.Sprintf("put k=%s v=%s", hx.Hex(keys[i]), hx.Hex(vals[i]))) }
+	readAll := func(upto int) {
+		for i := 0; i < upto; i++ {
+			ops = append(ops, "get k="+hx.Hex(keys[i]))
+		}
+		ops = append(ops, "hash")
+		for j := 0; j < 3; j++ {
+			ops = append(ops, "prove k="+hx.Hex(keys[g.Rng.Intn(upto)]))
+		}
+		ops = append(ops, "prove k="+hx.Hex(rbytes(g, 32)))
+	}
+	for i := range keys {
+		put(i)
+	}
+	n1 := len(keys)
+	switch sp.mode {
+	case "cap":
+		// commit into the node database, let Cap flush everything to disk through ITS batch loop, then reopen from disk
+		ops = append(ops, "commit", "cap limit=0", "reopen mode=disk")
+	case "gc":
+		// two referenced roots, the older one dereferenced, then the surviving root goes to disk
+		ops = append(ops, "commit")
+		for i := 0; i < 50; i++ {
+			ops = append(ops, fmt.Sprintf("put k=%s v=%s", hx.Hex(keys[i]), hx.Hex(rbytes(g, 64))))
+			vals[i] = hx.UnHex(ops[len(ops)-1][len(ops[len(ops)-1])-128:])
+		}
+		ops = append(ops, "commit", "gc", "reopen mode=disk")
+	default:
+		ops = append(ops, "commit", "reopen mode=disk")
+	}
+	readAll(n1)
+	if sp.second > 0 {
+		for i := 0; i < sp.second; i++ {
+			add()
+			put(len(keys) - 1)
+		}
+		// overwrite and delete a few committed keys too
+		for i := 0; i < 20; i++ {
+			vals[i] = rbytes(g, 64)
+			put(i)
+		}
+		ops = append(ops, "commit", "reopen mode=disk")
+		readAll(len(keys))
+		ops = append(ops, "reopen mode=disk", "hash")
+	}
+	g.Case(fmt.Sprintf("large %s kind=%s keys=%d first-commit-bytes=%d mode=%s", sp.name, kind, len(keys), first, sp.mode), ops, true)
+}
+
+// capCases: Database.Cap over the MemDB disk lost every node it flushed on the pinned tree (Cap passes `oldest[:]`, a slice of
+// a loop variable it then overwrites, to dbm.memBatch.Set, which kept the caller's slice); repaired by "fix: memBatch.Set
+// copies the key" (known_findings.json, fixed entry cap-membatch-key-aliasing), so the cases run.
+const capCases = true
+
+func genLarge(g *hx.Gen) {
+	T := dbm.IdealBatchSize // 100 KiB: Database.commit / Cap flush the write batch when it holds at least this much
+	specs := []largeSpec{
+		{name: "900x64", n: 900, second: 900, mode: "commit-reopen"},
+		{name: "900x64-secure", secure: true, n: 900, mode: "commit-reopen"},
+		{name: "below-threshold", target: T - 1, mode: "commit-reopen"},
+		{name: "at-threshold", target: T, second: 300, mode: "commit-reopen"},
+		{name: "above-threshold", target: T + 1, mode: "commit-reopen"},
+		{name: "three-flushes", n: 2600, mode: "commit-reopen"},
+		{name: "cap-flush", n: 1100, mode: "cap"},
+		{name: "gc-then-commit", n: 1000, mode: "gc"},
+	}
+	if g.Thorough() {
+		for i := 0; i < 6; i++ {
+			specs = append(specs,
+				largeSpec{name: "sweep", secure: i%2 == 1, target: T + (i-3)*700, second: 200 * (i % 3), mode: "commit-reopen"},
+				largeSpec{name: "multi", secure: i%2 == 0, n: 1500 + 700*i, second: 1200, mode: "commit-reopen"},
+				largeSpec{name: "cap", n: 900 + 300*i, mode: "cap"},
+				largeSpec{name: "gc", n: 900 + 200*i, mode: "gc"})
+		}
+	}
+	for _, sp := range specs {
+		if sp.mode == "cap" && !capCases {
+			continue
+		}
+		genLargeCase(g, sp)
+	}
+}
+
 func (P) Generate(g *hx.Gen) {
 	genRaw(g)
+	genLarge(g)
 	// corpus: the in-tree TestInsert / TestDelete vectors and the prefix-key iteration order witness
 	g.Case("corpus insert doe/dog/dogglesworth", []string{"case", "new kind=plain",
 		"put k=646f65 v=72656e64656572", "put k=646f67 v=7075707079", "put k=646f67676c6573776f727468 v=636174", "hash",
